@@ -33,6 +33,10 @@ def run(ctx):
         nmax = 150 if ctx.quick() else 400
         shapes_n = list(range(0, nmax + 1))
         shapes_nw = [(N, W) for N in range(1, 11) for W in range(1, 15)]
+        # a few LARGE shapes beyond the exhaustive domain (matrix sizes past 255 and 256: index arithmetic in a narrow
+        # integer type, table-driven rewrites and caches first go wrong at sizes like these)
+        shapes_nw += [(32, 8), (73, 5)] if ctx.quick() else [(32, 8), (64, 4), (73, 5), (16, 16), (100, 3), (51, 5)]
+        shapes_n += [255, 256, 257, 365] if ctx.quick() else [255, 256, 257, 300, 365, 400]
         ctx.exhaustive = True
         for c in ctx.corpus:
             if "n" in c and c["n"] not in shapes_n:
